@@ -211,13 +211,48 @@ def unrecognised_backend_calls(p, cfg):
     return out
 
 
+def approx_only_compares_n_with_hardware(p, N):
+    """If every unrefined comparison of path p relates n to hardware-derived counts only, a description of that count; else None"""
+    pcs = [k[1] for k in p.state.d if isinstance(k, tuple) and k[0] == 'pc']
+    if not pcs or len(p.approx) > len(pcs):
+        return None
+    names = []
+
+    def ok_atom(a):
+        if a == N:
+            return True
+        if isinstance(a, tuple) and a:
+            if a[0] == 'hw':
+                names.append(show_val(Poly.atom(a)))
+                return True
+            if a[0] == 'conv' and isinstance(a[2], Poly):
+                return all(ok_atom(x) for x in a[2].atoms(deep=False))
+        return False
+    for r in pcs:
+        if not all(ok_atom(a) for a in r.p.atoms(deep=False)) or N not in r.p.atoms(deep=False):
+            return None
+    if not all('is not a linear comparison of one value' in a for a in p.approx):
+        return None
+    return names[0] if names else None
+
+
+_ALL_PATHS = []     # the paths of the entry currently judged (set by check_init) - lets path_conditions tell relevant facts apart
+
+
 def path_conditions(p, N):
-    """the facts other than the range of n that single out path p, as text (which early return / branch was taken)"""
+    """the facts other than the range of n that single out path p, as text (which early return / branch was taken).  A fact is
+    mentioned only if some other path with the opposite fact leaves different events behind (otherwise it is an unrelated
+    branch such as flushDenormals)."""
     out = []
+    sig = lambda q: tuple(e[:2] for e in q.events if e[0] == 'store' or (e[0] == 'call' and is_api(e[1])))
     for k, v in p.state.d.items():
         if not (isinstance(k, tuple) and k[0] == 'fact') or k[1] == N:
             continue
         lo, hi = v
+        others = [q for q in _ALL_PATHS if q is not p and q.state.get(k) is not None and
+                  (q.state.get(k)[1] < lo or q.state.get(k)[0] > hi)]
+        if _ALL_PATHS and any(sig(q) == sig(p) for q in others):
+            continue        # the same outcome is reached with the opposite value: the fact does not select this behaviour
         what = show_val(Poly.atom(k[1]))
         out.append('%s %s' % (what, 'is null/false' if (lo, hi) == (0, 0) else 'is non-null/true' if lo >= 1 else 'in [%s, %s]' % (lo, hi)))
     return ' on the path where ' + ' and '.join(sorted(out)[:4]) + ': the (re-)initialisation is silently ignored there' if out else ''
@@ -317,6 +352,11 @@ def check_query(ctx, cfg, tus, tag):
         return None, None
     G = globs.pop()
     GT = None
+    check_cell_is_process_wide(ctx, cfg, tu, f, G, tag)
+    lazy = [e for p in paths for e in p.events if e[0] == 'call' and is_limit(cfg, e)]
+    _MODE.pop((tag, 'lazy'), None)
+    if lazy:
+        _MODE[(tag, 'lazy')] = lazy[0][4]
     for p in paths:
         lo, hi = p.bounds(G)
         inst = 'numTaskingThreads [%s] handle in %s' % (tag, 'null' if hi == 0 else 'non-null' if lo >= 1 else 'any state')
@@ -374,6 +414,45 @@ def check_query(ctx, cfg, tus, tag):
                 ctx.undecided(R2, inst, 'returned value %s is not a recognised thread-count query (required: %s)'
                               % (show_val(ret), want), tu.fn_loc(f))
     return G, GT
+
+
+def find_var_decl(tu, f, name):
+    """VarDecl node of the persistent variable `name` (qualified) that function f or its callees reference"""
+    todo, seen = [f], set()
+    while todo:
+        g = todo.pop()
+        if g['id'] in seen or tu.body(g) is None:
+            continue
+        seen.add(g['id'])
+        for x in tu.walk(tu.body(g)):
+            if x.get('kind') == 'DeclRefExpr' and x.get('referencedDecl', {}).get('kind') == 'VarDecl' and \
+                    (tu.sd(x).get('q') == name or name.endswith('::' + (x['referencedDecl'].get('name') or '?'))):
+                d = tu.node(x['referencedDecl'].get('id'))
+                if d is not None:
+                    return d
+            if x.get('kind') in ('CallExpr', 'CXXMemberCallExpr'):
+                c = tu.callee_fn(x)
+                if c is not None and not c['dep']:
+                    todo.append(c)
+    return None
+
+
+def check_cell_is_process_wide(ctx, cfg, tu, f, G, tag):
+    """R-C13-11 (storage duration): the cell that carries "initialised / which handle" is one per process, not one per thread:
+    initTaskingSystem configures a process-wide backend, and numTaskingThreads is called from arbitrary threads."""
+    R11 = 'R-C13-11'
+    d = find_var_decl(tu, f, G[1])
+    inst = 'storage of `%s` [%s]' % (G[1].split('::')[-1], tag)
+    if d is None:
+        ctx.undecided(R11, inst, 'cannot find the declaration of the state numTaskingThreads() tests', tu.fn_loc(f))
+    elif d.get('tls'):
+        ctx.violation(R11, inst, '`%s`, the state numTaskingThreads() tests and initTaskingSystem() replaces, is thread_local: every thread has '
+                      'its own copy, so an initialisation made on one thread is invisible on another (numTaskingThreads() is 0 there), and a '
+                      're-initialisation from another thread never replaces the first handle - under TBB both global_control objects stay '
+                      'alive and the smaller one wins' % G[1].split('::')[-1], tu.fn_loc(f),
+                      key='%s|%s|%s|thread-local-handle' % (R11, os.path.normpath(tu.fn_file(f)), G[1].split('::')[-1]))
+    else:
+        ctx.ok(R11, inst, 'static storage duration: one object for all threads', tu.fn_loc(f), nontrivial=False)
 
 
 _MODE = {}      # tag -> 'published' when numTaskingThreads returns a stored count instead of querying the backend
@@ -474,6 +553,7 @@ def check_init(ctx, cfg, tus, tag, G, GT):
                     r = owner_root(p, e[2].as_atom() if isinstance(e[2], Poly) else e[2])
                     if r is not None:
                         limit_roots.add(r)
+    _ALL_PATHS[:] = paths
     for p in paths:
         lo, hi = p.bounds(N)
         inst = 'initTaskingSystem [%s] n in %s' % (tag, rng((lo, hi)))
@@ -574,9 +654,20 @@ def check_init(ctx, cfg, tus, tag, G, GT):
                     ctx.undecided(R1, inst, '%s is called, which is not a recognised thread-limit API of this backend (%s)'
                                   % (takers[0][1], limit_name(cfg)), takers[0][4])
                 else:
-                    report(ctx, p, R1, inst, 'for n in %s the thread limit is never handed to the backend (%s not reached)%s'
-                           % (rng((max(lo, 1), hi)), limit_name(cfg), path_conditions(p, N)), tu.fn_loc(f),
-                           '%s|%s|initTaskingSystem|%s:limit-not-applied' % (R1, file, cfg))
+                    lazy_at = _MODE.get((tag, 'lazy'))
+                    msg = ('for n in %s the thread limit is never handed to the backend (%s not reached)%s%s'
+                           % (rng((max(lo, 1), hi)), limit_name(cfg), path_conditions(p, N),
+                              '; it is only applied later, inside numTaskingThreads() (%s): a parallel_for that runs before the first query '
+                              'is not limited at all' % lazy_at if lazy_at else ''))
+                    hwonly = approx_only_compares_n_with_hardware(p, N)
+                    if p.approx and hwonly:
+                        # the only conditions the analysis could not refine compare n with a hardware-derived count: n is a free
+                        # input, so the path is taken for n equal to that count
+                        ctx.violation(R1, inst, msg + ' - taken when n equals %s: the backend\'s own default is not that value in general '
+                                      '(affinity mask, other controls), and numTaskingThreads() then does not report n' % hwonly, tu.fn_loc(f),
+                                      key='%s|%s|initTaskingSystem|%s:limit-not-applied' % (R1, file, cfg))
+                    else:
+                        report(ctx, p, R1, inst, msg, tu.fn_loc(f), '%s|%s|initTaskingSystem|%s:limit-not-applied' % (R1, file, cfg))
             for e in limits:
                 v = limit_value(cfg, e)
                 sv = strip_site(v)
